@@ -694,6 +694,42 @@ func (m *collection) appendChildLLSnapshot(dst *segmentStack,
 	return dst
 }
 
+// refreshChildLLSnapshots recursively re-points the lower level
+// snapshots of the child collection segment stacks of ss at the child
+// collections of src, the current lower level snapshot, the way
+// mergerNotifyPersister() re-points the one of ss itself.  Otherwise
+// a merger cycle that resolves merge operations against such a child
+// stack would look at the lower level as it was when the stack was
+// created (or at none at all), and lose what was persisted since.
+func (m *collection) refreshChildLLSnapshots(ss *segmentStack, src Snapshot) {
+	for cName, childStack := range ss.childSegStacks {
+		childCollection, exists := m.childCollections[cName]
+		if !exists || childCollection.incarNum != childStack.incarNum {
+			continue // Deleted or recreated meanwhile, no longer looked at.
+		}
+
+		var childSnap Snapshot
+		if src != nil {
+			childSnap, _ = src.ChildCollectionSnapshot(cName)
+		}
+
+		// Same rule as in appendChildLLSnapshot().
+		if childFooter, ok := childSnap.(*Footer); ok && childFooter != nil &&
+			childFooter.incarNum != childCollection.incarNum {
+			childSnap.Close()
+			childSnap = nil
+		}
+
+		prevLowerLevelSnapshot := childStack.lowerLevelSnapshot
+		childStack.lowerLevelSnapshot = NewSnapshotWrapper(childSnap, nil)
+		if prevLowerLevelSnapshot != nil {
+			prevLowerLevelSnapshot.decRef()
+		}
+
+		childCollection.refreshChildLLSnapshots(childStack, childSnap)
+	}
+}
+
 // appendChildStacks recursively appends child segment stacks.
 func (m *collection) appendChildStacks(dst, src *segmentStack) *segmentStack {
 	if src == nil {
